@@ -45,14 +45,15 @@ def run(ctx):
         kind = rescorr.TABLE_KINDS[k % len(rescorr.TABLE_KINDS)]
         tb0 = rescorr.make_table(kind, rng, True)
         p = tb0["pressure"]
-        user_alpha = k % 3 == 1
-        simple = k % 5 == 4
+        variant = k % 3          # 0 computed diffusivity, 1 user-supplied diffusivity, 2 simple-liquid class
+        user_alpha = variant == 1
+        simple = variant == 2
         tb = {c: v.copy() for c, v in tb0.items()}
         if user_alpha:
             tb["alpha"] = 1 / (tb["compressibility"] * tb["viscosity"])
             for c in ("compressibility", "viscosity", "z-factor"):
                 del tb[c]
-        mode = k % 4
+        mode = (k // 3) % 4      # every (variant, p_i mode) pair occurs within 12 consecutive cases
         j = int(rng.integers(1, len(p) - 1))
         p_i = float(p[j]) if mode == 0 else float(rng.uniform(p[1], p[-1])) if mode in (1, 2) else float(rng.choice([p[0] - 1.0, p[-1] + 1.0, p[-1] * 2]))
         container = rng.integers(0, 3)
